@@ -369,5 +369,9 @@ class AdjointSDE(base_sde.BaseSDE):
                 create_graph=requires_grad
             )
             vjp_y_and_params = misc.seq_sub(prod_partials_adj_y_and_params, mixed_partials_adj_y_and_params)
-            return self._g_prod(g_prod, y, adj_y, requires_grad), misc.flatten((vg_dg_vjp, 
-                                                                                *vjp_y_and_params)).unsqueeze(0)
+            gdg_blocks = (vg_dg_vjp, *vjp_y_and_params)
+            if not requires_grad:
+                # A vjp hands its cotangent back as the result where the Jacobian is the identity (e.g. g = y + c), and the
+                # cotangents above were computed with gradients enabled: don't let their graph out.
+                gdg_blocks = tuple(block.detach() for block in gdg_blocks)
+            return self._g_prod(g_prod, y, adj_y, requires_grad), misc.flatten(gdg_blocks).unsqueeze(0)
